@@ -434,6 +434,21 @@ def g_segment_pairs(ctx, rng, i):
     if i % 5 == 0:
         _try(s1.intersect, g.Line(g.Point(LAT2[c]), g.Point(LAT2[d])))
         _try(s2.intersect, s1)
+    if i % 7 == 0:
+        # the other segment as a member of a collection (a collection object, an edge of a polygon): a single segment against a
+        # collection, a collection against a single segment, two collections
+        others = [SEGS[int(j)] for j in rng.choice(len(SEGS), size=2)]
+        sc = _try(g.SegmentCollection, np.array([[LAT2[c], LAT2[d]]] + [[LAT2[x], LAT2[y]] for x, y in others]))
+        if sc is not None:
+            _try(s1.intersect, sc)
+            _try(sc.intersect, s1)
+            _try(sc.intersect, g.SegmentCollection(np.array([[LAT2[a], LAT2[b]]] * 3)))
+            _try(s1.intersect, sc[0])
+        tri = _try(g.Polygon, g.Point(LAT2[c]), g.Point(LAT2[d]), g.Point(LAT2[others[0][0]] + np.array([5, 1, 0])))
+        if tri is not None:
+            e0 = _try(lambda: tri.edges[0])
+            if e0 is not None:
+                _try(s1.intersect, e0)
 
 
 def g_segments3d(ctx, rng, i):
